@@ -43,6 +43,13 @@ def obligations(tier):
                     n = 4 * (w + 2) + 1
                 obs.append(Ob(f"{spec_name((kind, name, kw))}/{form}/{level}/n={n}", dict(spec=[kind, name, kw], form=form, level=level, n=n, mtf=(None if (heavy and tier == "quick") else [None, "T2", "T3", None, "t2", "T3"][idx % 6])), CFG,
                               weight=n * (10 if heavy else 1), budget_s=900 if tier == "quick" else 7200, max_paths=100000))
+        # a further member on the partner's / third member's timeframe is registered and removed again before the last
+        # append: the remaining members must not notice (they keep being fed on the timeframe the guest shared)
+        if (not heavy and idx % 3 == 0) or (tier == "thorough" and name not in ("ADX", "aroon")):
+            n = w + (2 if heavy else 3) + 1
+            for gtf in ("T2", "T3"):
+                obs.append(Ob(f"{spec_name((kind, name, kw))}/object/plain/guest on {gtf} removed/n={n}", dict(spec=[kind, name, kw], form="object", level="plain", n=n, mtf="T3", guest=gtf), CFG,
+                              weight=n * (10 if heavy else 1), budget_s=900 if tier == "quick" else 7200, max_paths=100000))
     return obs
 
 
@@ -99,17 +106,24 @@ def run(ctx, P):
     members = [(spec, {}), (("ind", "WMA", dict(period=4)), dict(timeframe="T2") if not level.get("timeframe") else {})]
     if mtf:
         members.append((spec, dict(timeframe=mtf)))
+    guest = P.get("guest")
     for pre, chunks in ((2, [1] * (n - 2)), (0, [n - 1, 1]), (n, [])):
+        if guest and not chunks:
+            continue
         lab = f"[preload={pre},chunks={'+'.join(map(str, chunks))}]"
         src = clone(cs)
         handed = [as_form(s, P["form"] if j == 0 else FORMS[j % 3], **e) for j, (s, e) in enumerate(members)]
+        if guest:
+            handed.append(build_any(("ind", "SMA", dict(period=2)), timeframe=guest, name_suffix="guest"))
         hx = Hexital("hx", src[:pre], handed, **level)
         for h in handed:
             if isinstance(h, dict):
                 caller_reuses(h)
         hx.calculate()
         pos = pre
-        for c in chunks:
+        for k, c in enumerate(chunks):
+            if guest and k == len(chunks) - 1:
+                hx.remove_indicator(handed[-1].name)
             part = src[pos:pos + c]
             hx.append(part if c > 1 else part[0])
             pos += c
